@@ -27,11 +27,13 @@ def props_of(d):
         P.add("C03")
     if f.startswith("ev.unjustified.Overflow") or f.startswith("ev.unjustified.Expiration") or f == "bound":
         P.add("C07")
-    if f == "bound":
+    if f == "bound" or (f.startswith("ev.unjustified.Overflow") and "w |-> 0," in str(d.get("got", ""))):
+        # the bound after maintenance; a zero-weight (pinned) entry removed for size
         P.add("C04")
     if f in ("ev.missing", "ev.async") or f.startswith("ev.unjustified"):
         P.add("C06")
-    if f == "est":
+    if f == "est" or (f == "num" and op in ("EstimatedSize", "WeightedSize")) or (f == "ents" and op in ITER_OPS and not anydead):
+        # derived views at quiescence: EstimatedSize, WeightedSize, iteration / Hottest / Coldest enumerate the entries present
         P.add("C05")
     if op in LOAD_OPS and (f in ("ok", "val", "err", "res", "loads", "panic", "est") or f.startswith("proj")):
         P.add("C10")
@@ -58,6 +60,8 @@ PLAN = {
     "C01": (["mix", "mix", "expiry", "size", "load", "deadline", "persist", "stats"],
             ["Cfg_plain", "Cfg_writing", "Cfg_count", "Cfg_weightAll"]),
     "C03": (["expiry"], ["Cfg_creating", "Cfg_writing", "Cfg_accessing", "Cfg_custom", "Cfg_countExp"]),
+    "C04": (["size", "size", "size", "mix"], ["Cfg_count", "Cfg_weight", "Cfg_weightAll"]),
+    "C05": (["size", "mix", "expiry"], ["Cfg_count", "Cfg_weightAll"]),
     "C06": (["expiry", "mix", "size", "load", "sweep"], ["Cfg_writing", "Cfg_countExp", "Cfg_weightAll"]),
     "C07": (["size", "size", "sweep", "mix"], ["Cfg_count", "Cfg_countExp", "Cfg_weight", "Cfg_weightAll"]),
     "C10": (["load", "load", "stats"], ["Cfg_plain", "Cfg_writing", "Cfg_refresh", "Cfg_count"]),
@@ -238,10 +242,10 @@ def run(prop, tier, replay=None):
 
 
 def finish(prop, tier, t0, cov, violations, known, broken):
-    if prop == "C06" and not broken:
+    if prop in ("C04", "C05", "C06") and not broken:
         # concurrent half of C06: gate-scheduled writers audited by WRAudit.tla (conservation, exactly once, order)
         import wrcheck
-        wcov, wviol, wbroken = wrcheck.run("C06", tier, None, collect_only=True)
+        wcov, wviol, wbroken = wrcheck.run(prop, tier, None, collect_only=True)
         cov["concurrent_audits"] = wcov["traces_validated_against_impl"]
         cov["traces_validated_against_impl"] += wcov["traces_validated_against_impl"]
         cov["states"] += wcov["states"]
@@ -250,6 +254,18 @@ def finish(prop, tier, t0, cov, violations, known, broken):
         broken += wbroken
         for x, sc, path in wviol:
             violations.append(({"op": "concurrent", "pre": "", "field": x["pred"], "want": "", "got": x["detail"], "cfg": sc.get("size")}, path))
+    if prop == "C11" and not broken:
+        # asynchronous-executor half of C11: gate-scheduled refreshes / reloads judged by LoadHist.tla
+        import loadcheck
+        lcov, lviol, lbroken = loadcheck.run("C11", tier, None, collect_only=True)
+        cov["concurrent_histories"] = lcov["traces_validated_against_impl"]
+        cov["traces_validated_against_impl"] += lcov["traces_validated_against_impl"]
+        cov["states"] += lcov["states"]
+        cov["transitions"] += lcov["transitions"]
+        cov["mc_configs"] += lcov["mc"]
+        broken += lbroken
+        for x, sc, path in lviol:
+            violations.append(({"op": "concurrent", "pre": "", "field": x["pred"], "want": "", "got": x["detail"], "cfg": None}, path))
     if prop == "C20" and not broken:
         # concurrent form of C20: tallies of gate-scheduled / free-running histories judged by StatsHist.tla
         import c02check
